@@ -1,4 +1,6 @@
 import AnonCreds.Model.Wire
+import AnonCreds.Model.Fr
+import AnonCreds.Model.Vb20
 /-
 Line-protocol driver: one request per line on stdin, one reply per line on stdout.
 Unknown or malformed requests answer `bad-op` (never a default value).
@@ -28,9 +30,80 @@ def claimsOp (toks : List String) : Option String :=
   | ["utf8", b] => (bytesOf? b).map fun b => toString (utf8Valid b)
   | _ => none
 
+/-- one `adds;dels;coefs` group of a multi-batch update -/
+def deltaOf? (s : String) : Option (List Fr × List Fr × List Fr) :=
+  match s.splitOn ";" with
+  | [a, d, c] =>
+    match listOf? frOf? a, listOf? frOf? d, listOf? frOf? c with
+    | some a, some d, some c => some (a, d, c)
+    | _, _, _ => none
+  | _ => none
+
+/-- VB20 accumulator ops; group elements are given by their discrete logs w.r.t. the G1 generator -/
+def vbOp (toks : List String) : Option String :=
+  open AC.Vb20 in
+  match toks with
+  | ["vb.coef", α, adds, dels] =>
+    match frOf? α, listOf? frOf? adds, listOf? frOf? dels with
+    | some α, some adds, some dels => some (showList frHex (createCoefficients α adds dels))
+    | _, _, _ => none
+  | ["vb.accupd", α, v, adds, dels] =>
+    match frOf? α, frOf? v, listOf? frOf? adds, listOf? frOf? dels with
+    | some α, some v, some adds, some dels =>
+      let (v', cs) := accUpdate (G := Fr) α v adds dels
+      some (g1Tok v' ++ " " ++ showList g1Tok cs)
+    | _, _, _, _ => none
+  | ["vb.mwnew", α, y, v] =>
+    match frOf? α, frOf? y, frOf? v with
+    | some α, some y, some v => some (g1Tok (mwNew (G := Fr) α y v))
+    | _, _, _ => none
+  | ["vb.mwbatch", c, y, adds, dels, coefs] =>
+    match frOf? c, frOf? y, listOf? frOf? adds, listOf? frOf? dels, listOf? frOf? coefs with
+    | some c, some y, some adds, some dels, some coefs => some (g1Tok (mwBatchUpdate (G := Fr) c y adds dels coefs))
+    | _, _, _, _, _ => none
+  | "vb.mwmulti" :: c :: y :: deltas =>
+    match frOf? c, frOf? y, deltas.mapM deltaOf? with
+    | some c, some y, some ds => some (g1Tok (mwMultiBatchUpdate (G := Fr) c y ds))
+    | _, _, _ => none
+  | ["vb.mwupdate", c, y, vold, vnew, adds, dels] =>
+    match frOf? c, frOf? y, frOf? vold, frOf? vnew, listOf? frOf? adds, listOf? frOf? dels with
+    | some c, some y, some vo, some vn, some adds, some dels => some (g1Tok (mwUpdate (G := Fr) c y vo vn adds dels))
+    | _, _, _, _, _, _ => none
+  | ["vb.mwverify", α, y, c, v] =>
+    match frOf? α, frOf? y, frOf? c, frOf? v with
+    | some α, some y, some c, some v => some (toString (mwVerify (G := Fr) α y c v))
+    | _, _, _, _ => none
+  | ["vb.nmnew", α, y, elems] =>
+    match frOf? α, frOf? y, listOf? frOf? elems with
+    | some α, some y, some es =>
+      match nmNew (G := Fr) α y es 1 with
+      | some w => some (g1Tok w.c ++ " " ++ frHex w.d)
+      | none => some "none"
+    | _, _, _ => none
+  | ["vb.nmbatch", c, d, y, adds, dels, coefs] =>
+    match frOf? c, frOf? d, frOf? y, listOf? frOf? adds, listOf? frOf? dels, listOf? frOf? coefs with
+    | some c, some d, some y, some adds, some dels, some coefs =>
+      let w := nmBatchUpdate (G := Fr) ⟨c, d⟩ y adds dels coefs
+      some (g1Tok w.c ++ " " ++ frHex w.d)
+    | _, _, _, _, _, _ => none
+  | "vb.nmmulti" :: c :: d :: y :: deltas =>
+    match frOf? c, frOf? d, frOf? y, deltas.mapM deltaOf? with
+    | some c, some d, some y, some ds =>
+      let w := nmMultiBatchUpdate (G := Fr) ⟨c, d⟩ y ds
+      some (g1Tok w.c ++ " " ++ frHex w.d)
+    | _, _, _, _ => none
+  | ["vb.nmverify", α, y, c, d, v] =>
+    match frOf? α, frOf? y, frOf? c, frOf? d, frOf? v with
+    | some α, some y, some c, some d, some v => some (toString (nmVerify (G := Fr) α y ⟨c, d⟩ 1 v))
+    | _, _, _, _, _ => none
+  | _ => none
+
 def answer (line : String) : String :=
   let toks := (line.trimAscii.toString.splitOn " ").filter (· ≠ "")
   match claimsOp toks with
+  | some r => r
+  | none =>
+  match vbOp toks with
   | some r => r
   | none => "bad-op"
 
